@@ -1,5 +1,6 @@
 import LyModel.Valid.LemmasCasePath
 import LyModel.Valid.WellFormed
+import LyModel.Valid.LemmasCaseGood
 /-! `validate_idempotent` (C07) for schemas WITH `choice` / `case`, part 4: stable trees and the assembly.  A validated tree is
 *stable* — no node is new, on every sibling level `lyd_new_implicit` has nothing to do and no default node is the leftover of a
 dead case, the default flag of every non-presence container agrees with its children — and on a stable tree every phase of
@@ -239,7 +240,8 @@ open LyModel LyModel.Tree
 /-! ## what the later phases do to a sibling level: same nodes, same flags, except that a non-presence container may become default -/
 
 def Flip (X : SchemaX) (a b : DNode) : Prop :=
-  b.sid = a.sid ∧ b.flags.new = a.flags.new ∧ (b.flags.dflt = a.flags.dflt ∨ (X.base.isNpCont a.sid = true ∧ b.flags.dflt = true))
+  b.sid = a.sid ∧ b.flags.new = a.flags.new ∧
+    (b.flags.dflt = a.flags.dflt ∨ (NoNpContInCase X ∧ X.base.isNpCont a.sid = true ∧ b.flags.dflt = true))
 
 theorem Rel2.imp {α β : Type} {R R' : α → β → Prop} (h : ∀ a b, R a b → R' a b) : ∀ {as : List α} {bs : List β}, Rel2 R as bs → Rel2 R' as bs := by
   intro as bs hr
@@ -247,8 +249,15 @@ theorem Rel2.imp {α β : Type} {R R' : α → β → Prop} (h : ∀ a b, R a b 
   | nil => exact Rel2.nil
   | cons hab _ ih => exact Rel2.cons (h _ _ hab) ih
 
-theorem flip_any (X : SchemaX) (ds : List Nat) (hds : ∀ s' ∈ ds, X.base.isNpCont s' = false) : ∀ {a b : List DNode}, Rel2 (Flip X) a b →
-    (b.any fun y => inSids ds y && !y.flags.dflt) = (a.any fun y => inSids ds y && !y.flags.dflt) := by
+theorem chainView_noNp (X : SchemaX) (hB : NoNpContInCase X) (sid : Nat) : ∀ v ∈ chainView X sid, ∀ s' ∈ v.2.2, X.base.isNpCont s' = false := by
+  intro v hv s' hs'
+  unfold chainView at hv
+  obtain ⟨p, hp, hpv⟩ := List.mem_map.1 hv
+  subst hpv
+  exact hB.2 sid p hp s' hs'
+
+theorem flip_any (X : SchemaX) (sid0 : Nat) (v : CView) (hv : v ∈ chainView X sid0) : ∀ {a b : List DNode}, Rel2 (Flip X) a b →
+    (b.any fun y => inSids v.2.2 y && !y.flags.dflt) = (a.any fun y => inSids v.2.2 y && !y.flags.dflt) := by
   intro a b h
   induction h with
   | nil => rfl
@@ -258,33 +267,26 @@ theorem flip_any (X : SchemaX) (ds : List Nat) (hds : ∀ s' ∈ ds, X.base.isNp
     obtain ⟨h1, _, h3⟩ := hab
     unfold inSids
     rw [h1]
-    rcases h3 with h3 | ⟨h3, h4⟩
+    rcases h3 with h3 | ⟨hB, h3, h4⟩
     · rw [h3]
-    · cases hc : ds.contains x.sid with
+    · cases hc : v.2.2.contains x.sid with
       | false => rfl
       | true =>
         rw [List.contains_iff_mem] at hc
-        rw [hds x.sid hc] at h3; cases h3
+        rw [chainView_noNp X hB sid0 v hv x.sid hc] at h3; cases h3
 
 theorem chainView_nil_of_np (X : SchemaX) (hB : NoNpContInCase X) (sid : Nat) (h : X.base.isNpCont sid = true) : chainView X sid = [] := by
   unfold chainView
   rw [hB.1 sid h]
   rfl
 
-theorem chainView_noNp (X : SchemaX) (hB : NoNpContInCase X) (sid : Nat) : ∀ v ∈ chainView X sid, ∀ s' ∈ v.2.2, X.base.isNpCont s' = false := by
-  intro v hv s' hs'
-  unfold chainView at hv
-  obtain ⟨p, hp, hpv⟩ := List.mem_map.1 hv
-  subst hpv
-  exact hB.2 sid p hp s' hs'
-
 /-- the later phases keep "no default node is the leftover of a dead case" -/
-theorem NV_flip (X : SchemaX) (hq2 : X.q.autodelDirectCase = false) (hB : NoNpContInCase X) {a b : List DNode}
+theorem NV_flip (X : SchemaX) (hq2 : X.q.autodelDirectCase = false) {a b : List DNode}
     (h : Rel2 (Flip X) a b) (hv : NV X a) : NV X b := by
   intro y hy hd
   obtain ⟨x, hx, hxy⟩ := forall2_mem_right h y hy
   rw [victim_eq X hq2, hxy.1]
-  rcases hxy.2.2 with h3 | ⟨h3, _⟩
+  rcases hxy.2.2 with h3 | ⟨hB, h3, _⟩
   · have hxd : x.flags.dflt = true := by rw [← h3]; exact hd
     have := hv x hx hxd
     rw [victim_eq X hq2, List.any_eq_false] at this
@@ -292,7 +294,7 @@ theorem NV_flip (X : SchemaX) (hq2 : X.q.autodelDirectCase = false) (hB : NoNpCo
     intro v hvm
     have hg := this v hvm
     unfold goneV at hg ⊢
-    rw [flip_any X v.2.2 (chainView_noNp X hB x.sid v hvm) h]
+    rw [flip_any X x.sid v hvm h]
     exact hg
   · rw [chainView_nil_of_np X hB x.sid h3]
     rfl
@@ -418,11 +420,11 @@ theorem level_first (X : SchemaX) (o : VOpts) (cx cx' : Cx) (hq1 : X.q.implicitI
       · exact placedCN_nokids X x hk
 
 /-- a level all of whose nodes the walk has made stable -/
-theorem level_walked (X : SchemaX) (o : VOpts) (hq2 : X.q.autodelDirectCase = false) (hB : NoNpContInCase X) (sk : List STree)
+theorem level_walked (X : SchemaX) (o : VOpts) (hq2 : X.q.autodelDirectCase = false) (sk : List STree)
     (r2 r3 : List DNode) (h1 : implDoneX o sk r2 = true) (h2 : NV X r2) (h3 : ∀ x ∈ r2, x.flags.new = false)
     (hr : Rel2 (Kept2 X o) r2 r3) : implDoneX o sk r3 = true ∧ NV X r3 ∧ StableL X o false r3 := by
   have hf : Rel2 (Flip X) r2 r3 := Rel2.imp (fun _ _ h => h.flip) hr
-  refine ⟨?_, NV_flip X hq2 hB hf h2, ?_⟩
+  refine ⟨?_, NV_flip X hq2 hf h2, ?_⟩
   · rw [implDoneX_congr o sk r3 r2 (hasInst_flip X hf)]; exact h1
   · rw [StableL_all]
     intro x hx
@@ -431,7 +433,7 @@ theorem level_walked (X : SchemaX) (o : VOpts) (hq2 : X.q.autodelDirectCase = fa
 
 /-- **the walk of `lyd_validate_subtree`**, with enough fuel for the height of the schema below -/
 theorem subtree_stable2 (X : SchemaX) (o : VOpts) (hq1 : X.q.implicitInnerCase = false) (hq2 : X.q.autodelDirectCase = false)
-    (hl : KidsLookupOk X) (hw : CaseWf X) (hB : NoNpContInCase X) : ∀ (fuel : Nat)
+    (hl : KidsLookupOk X) (hw : CaseWf X) : ∀ (fuel : Nat)
     (cx : Cx) (before : List DNode) (n : DNode) (sk : List STree), (∀ k, BelowL k sk → BelowL k X.top) →
       n.sid ∈ dataSidsL sk → placedCN X n = true → sheightL sk ≤ fuel →
       Kept2 X o n (subtreeNode X o fuel cx before n).1 := by
@@ -467,61 +469,103 @@ theorem subtree_stable2 (X : SchemaX) (o : VOpts) (hq1 : X.q.implicitInnerCase =
       have h3 : Rel2 (Kept2 X o) r2.1 (walkList (subtreeNode X o fuel (cx.descend X.base before (DNode.inner s f m ks)).keysOld) [] r2.1).1 :=
         walkList_rel _ r2.1 [] (fun b x hx => ih _ b x k.kids hsk' (c4 x hx).1 (c4 x hx).2 hh')
       generalize (walkList (subtreeNode X o fuel (cx.descend X.base before (DNode.inner s f m ks)).keysOld) [] r2.1) = r3 at h3 ⊢
-      obtain ⟨d1, d2, d3⟩ := level_walked X o hq2 hB k.kids r2.1 r3.1 c1 c2 c3 h3
+      obtain ⟨d1, d2, d3⟩ := level_walked X o hq2 k.kids r2.1 r3.1 c1 c2 c3 h3
       refine ⟨rfl, rfl, ?_⟩
       rw [StableN_inner, hkids]
       exact ⟨d1, d2, d3, fun h => by cases h⟩
 
 /-! ## `lyd_validate_final_r` makes the default flags of the non-presence containers final -/
 
-theorem npSet_flip (X : SchemaX) (s : Nat) (f : Flags) (m : List Meta) (ks ks' : List DNode) :
+theorem npSet_flip (X : SchemaX) (s : Nat) (f : Flags) (m : List Meta) (ks ks' : List DNode)
+    (h : NoNpContInCase X ∨ (X.base.isNpCont s && !f.dflt && ks'.all (·.flags.dflt)) = false) :
     Flip X (.inner s f m ks) (npSet X.base (.inner s f m ks')) := by
   rw [npSet_inner]
   split
   · rename_i hc
-    simp only [Bool.and_eq_true] at hc
-    exact ⟨rfl, rfl, Or.inr ⟨hc.1.1, rfl⟩⟩
+    rcases h with h | h
+    · simp only [Bool.and_eq_true] at hc
+      exact ⟨rfl, rfl, Or.inr ⟨h, hc.1.1, rfl⟩⟩
+    · rw [h] at hc; cases hc
   · exact ⟨rfl, rfl, Or.inl rfl⟩
 
 mutual
-theorem finalNode_stable2 (X : SchemaX) (o : VOpts) (hq2 : X.q.autodelDirectCase = false) (hB : NoNpContInCase X) :
-    ∀ (n : DNode) (cx : Cx) (before : List DNode), StableN X o false n →
-    Flip X n (finalNode X o cx before n).1 ∧ StableN X o true (finalNode X o cx before n).1
-  | .term s f m v, _, _, _ => by
+theorem finalNode_stable2 (X : SchemaX) (o : VOpts) (hq2 : X.q.autodelDirectCase = false) :
+    ∀ (n : DNode) (cx : Cx) (before : List DNode), StableN X o false n → (NoNpContInCase X ∨ npInvN X.base n) →
+    Flip X n (finalNode X o cx before n).1 ∧ StableN X o true (finalNode X o cx before n).1 ∧
+      (npInvN X.base n → (finalNode X o cx before n).1.flags.dflt = n.flags.dflt)
+  | .term s f m v, _, _, _, _ => by
     unfold finalNode
-    exact ⟨⟨rfl, rfl, Or.inl rfl⟩, StableN_term ..⟩
-  | .inner s f m ks, cx, before, h => by
+    exact ⟨⟨rfl, rfl, Or.inl rfl⟩, StableN_term .., fun _ => rfl⟩
+  | .inner s f m ks, cx, before, h, hfin => by
     rw [StableN_inner] at h
     obtain ⟨hdone, hnv, hkids, _⟩ := h
-    have ih := finalKids_stable2 X o hq2 hB ks (cx.descend X.base before (.inner s f m ks)) [] hkids
+    have hfin' : NoNpContInCase X ∨ npInvL X.base ks := by
+      rcases hfin with h | h
+      · exact Or.inl h
+      · unfold npInvN at h; exact Or.inr h.2
+    have ih := finalKids_stable2 X o hq2 ks (cx.descend X.base before (.inner s f m ks)) [] hkids hfin'
     unfold finalNode
     dsimp only
     generalize (finalKids X o (cx.descend X.base before (DNode.inner s f m ks)) [] ks) = r at ih ⊢
-    refine ⟨npSet_flip X s f m ks r.1, ?_⟩
     have hd : implDoneX o (X.kidsOf (some s)) r.1 = true := by
       rw [implDoneX_congr o _ r.1 ks (hasInst_flip X ih.1)]; exact hdone
-    have hnv' : NV X r.1 := NV_flip X hq2 hB ih.1 hnv
-    rw [npSet_inner]
-    by_cases hcond : (X.base.isNpCont s && !f.dflt && r.1.all (·.flags.dflt)) = true
-    · rw [if_pos hcond, StableN_inner]
-      exact ⟨hd, hnv', ih.2, fun _ => by simp⟩
-    · rw [if_neg hcond, StableN_inner]
-      exact ⟨hd, hnv', ih.2, fun _ => by simpa using hcond⟩
-theorem finalKids_stable2 (X : SchemaX) (o : VOpts) (hq2 : X.q.autodelDirectCase = false) (hB : NoNpContInCase X) :
-    ∀ (ns : List DNode) (cx : Cx) (before : List DNode), StableL X o false ns →
-    Rel2 (Flip X) ns (finalKids X o cx before ns).1 ∧ StableL X o true (finalKids X o cx before ns).1
-  | [], _, _, _ => by
+    have hnv' : NV X r.1 := NV_flip X hq2 ih.1 hnv
+    -- with the invariant nothing is left to set
+    have hinv : npInvN X.base (.inner s f m ks) → (X.base.isNpCont s && !f.dflt && r.1.all (·.flags.dflt)) = false := by
+      intro hn
+      unfold npInvN at hn
+      have hall : r.1.all (·.flags.dflt) = allD ks := ih.2.2 hn.2
+      rw [hall]
+      cases hnp : X.base.isNpCont s with
+      | false => rfl
+      | true =>
+        rw [← hn.1 hnp]
+        cases f.dflt <;> rfl
+    have hflip : Flip X (.inner s f m ks) (npSet X.base (.inner s f m r.1)) := by
+      apply npSet_flip
+      rcases hfin with h | h
+      · exact Or.inl h
+      · exact Or.inr (hinv h)
+    refine ⟨hflip, ?_, ?_⟩
+    · rw [npSet_inner]
+      by_cases hcond : (X.base.isNpCont s && !f.dflt && r.1.all (·.flags.dflt)) = true
+      · rw [if_pos hcond, StableN_inner]
+        exact ⟨hd, hnv', ih.2.1, fun _ => by simp⟩
+      · rw [if_neg hcond, StableN_inner]
+        exact ⟨hd, hnv', ih.2.1, fun _ => by simpa using hcond⟩
+    · intro hn
+      rw [npSet_inner, if_neg (by rw [hinv hn]; simp)]
+      rfl
+theorem finalKids_stable2 (X : SchemaX) (o : VOpts) (hq2 : X.q.autodelDirectCase = false) :
+    ∀ (ns : List DNode) (cx : Cx) (before : List DNode), StableL X o false ns → (NoNpContInCase X ∨ npInvL X.base ns) →
+    Rel2 (Flip X) ns (finalKids X o cx before ns).1 ∧ StableL X o true (finalKids X o cx before ns).1 ∧
+      (npInvL X.base ns → allD (finalKids X o cx before ns).1 = allD ns)
+  | [], _, _, _, _ => by
     unfold finalKids
-    exact ⟨Rel2.nil, by rw [StableL]; trivial⟩
-  | n :: ns, cx, before, h => by
+    exact ⟨Rel2.nil, by rw [StableL]; trivial, fun _ => rfl⟩
+  | n :: ns, cx, before, h, hfin => by
     rw [StableL] at h
-    have h1 := finalNode_stable2 X o hq2 hB n cx before h.2.1
-    have h2 := finalKids_stable2 X o hq2 hB ns cx (before ++ [n]) h.2.2
+    have hf1 : NoNpContInCase X ∨ npInvN X.base n := by
+      rcases hfin with h | h
+      · exact Or.inl h
+      · unfold npInvL at h; exact Or.inr h.1
+    have hf2 : NoNpContInCase X ∨ npInvL X.base ns := by
+      rcases hfin with h | h
+      · exact Or.inl h
+      · unfold npInvL at h; exact Or.inr h.2
+    have h1 := finalNode_stable2 X o hq2 n cx before h.2.1 hf1
+    have h2 := finalKids_stable2 X o hq2 ns cx (before ++ [n]) h.2.2 hf2
     unfold finalKids
     dsimp only
-    refine ⟨Rel2.cons h1.1 h2.1, ?_⟩
-    rw [StableL]
-    exact ⟨by rw [h1.1.2.1]; exact h.1, h1.2, h2.2⟩
+    refine ⟨Rel2.cons h1.1 h2.1, ?_, ?_⟩
+    · rw [StableL]
+      exact ⟨by rw [h1.1.2.1]; exact h.1, h1.2.1, h2.2.1⟩
+    · intro hn
+      unfold npInvL at hn
+      have e1 := h1.2.2 hn.1
+      have e2 := h2.2.2 hn.2
+      unfold allD at e2 ⊢
+      rw [List.all_cons, List.all_cons, e1, e2]
 end
 
 /-! ## assembly -/
@@ -529,29 +573,34 @@ end
 /-- a validation leaves a stable tree (repaired variants; no non-presence container in a case; data that follow the schema;
 enough fuel for the schema) -/
 theorem validate_stable2 (X : SchemaX) (o : VOpts) (hq1 : X.q.implicitInnerCase = false) (hq2 : X.q.autodelDirectCase = false)
-    (hl : KidsLookupOk X) (hw : CaseWf X) (hB : NoNpContInCase X) (t : List DNode)
+    (hl : KidsLookupOk X) (hw : CaseWf X) (t : List DNode) (hB : NoNpContInCase X ∨ (npInvL X.base t ∧ newExplL t))
     (hp : placedCL X X.top t = true) (hh : sheightL X.top ≤ walkFuel X t) (hpe : (o.present && t.isEmpty) = false) :
     StableTop X o (validate X o t).tree := by
   obtain ⟨ht, _⟩ := validate_evs_eq X o t hpe
   rw [ht]
+  have hpre : NoNpContInCase X ∨
+      npInvL X.base (subtreeKids X o (walkFuel X t) {} [] (implL X o {} X.top (validateNew X o {} t).1).1).1 := by
+    rcases hB with h | h
+    · exact Or.inl h
+    · exact Or.inr (prefinal_good X o t h.1 h.2)
   obtain ⟨c1, c2, c3, c4⟩ := level_first X o {} {} hq1 hq2 X.top hw.1 t hp
-  generalize (implL X o {} X.top (validateNew X o {} t).1) = r2 at c1 c2 c3 c4 ⊢
+  generalize (implL X o {} X.top (validateNew X o {} t).1) = r2 at c1 c2 c3 c4 hpre ⊢
   have h3 : Rel2 (Kept2 X o) r2.1 (subtreeKids X o (walkFuel X t) {} [] r2.1).1 := by
     unfold subtreeKids
     exact walkList_rel _ r2.1 [] (fun b x hx =>
-      subtree_stable2 X o hq1 hq2 hl hw hB _ {} b x X.top (fun k hk => hk) (c4 x hx).1 (c4 x hx).2 hh)
-  generalize (subtreeKids X o (walkFuel X t) {} [] r2.1) = r3 at h3 ⊢
-  obtain ⟨d1, d2, d3⟩ := level_walked X o hq2 hB X.top r2.1 r3.1 c1 c2 c3 h3
-  have hfin := finalKids_stable2 X o hq2 hB r3.1 {} [] d3
+      subtree_stable2 X o hq1 hq2 hl hw _ {} b x X.top (fun k hk => hk) (c4 x hx).1 (c4 x hx).2 hh)
+  generalize (subtreeKids X o (walkFuel X t) {} [] r2.1) = r3 at h3 hpre ⊢
+  obtain ⟨d1, d2, d3⟩ := level_walked X o hq2 X.top r2.1 r3.1 c1 c2 c3 h3
+  have hfin := finalKids_stable2 X o hq2 r3.1 {} [] d3 hpre
   unfold StableTop finalR
   dsimp only
-  refine ⟨?_, NV_flip X hq2 hB hfin.1 d2, hfin.2⟩
+  refine ⟨?_, NV_flip X hq2 hfin.1 d2, hfin.2.1⟩
   rw [implDoneX_congr o X.top _ r3.1 (hasInst_flip X hfin.1)]
   exact d1
 
 /-- **`validate_idempotent` with `choice` / `case`** -/
 theorem validate_idempotent2 (X : SchemaX) (o : VOpts) (hq1 : X.q.implicitInnerCase = false) (hq2 : X.q.autodelDirectCase = false)
-    (hl : KidsLookupOk X) (hw : CaseWf X) (hB : NoNpContInCase X) (t : List DNode)
+    (hl : KidsLookupOk X) (hw : CaseWf X) (t : List DNode) (hB : NoNpContInCase X ∨ (npInvL X.base t ∧ newExplL t))
     (hp : placedCL X X.top t = true) (hh : sheightL X.top ≤ walkFuel X t) :
     (validate X o (validate X o t).tree).tree = (validate X o t).tree ∧
     (validate X o (validate X o t).tree).evs = [] := by
@@ -564,6 +613,6 @@ theorem validate_idempotent2 (X : SchemaX) (o : VOpts) (hq1 : X.q.implicitInnerC
     unfold validate
     simp only [hpe', if_true]
     exact ⟨trivial, rfl⟩
-  · exact validate_of_stable2 X o hq1 _ (validate_stable2 X o hq1 hq2 hl hw hB t hp hh (by simpa using hpe))
+  · exact validate_of_stable2 X o hq1 _ (validate_stable2 X o hq1 hq2 hl hw t hB hp hh (by simpa using hpe))
 
 end LyModel.Valid
